@@ -85,8 +85,108 @@ pub open spec fn state_ok(m: Map<LabelInput, NodeLabel>, epoch: u64, st: ValueSt
     exists|k: LabelInput| m.contains_key(k) && k.1 is Fresh && #[trigger] state_for(k, m[k], epoch) == st
 }
 
+// ---- C02 / C03 (head of publish): which (label, freshness, version, value) tuples a batch turns into.
+// `stored` is the bulk answer of the storage layer: label -> (version, value) of the label's latest state as of the current epoch.
+// A label never seen gets version 1; a label re-submitted with the value it already has gets NOTHING (no new version, no new epoch on
+// its account - the version counts the DISTINCT successive values); a changed value retires version v (stale marker) and creates v+1.
+use vstd::std_specs::hash::*;
+#[verifier::external_body]
+pub broadcast proof fn axiom_label_key_model()
+    ensures #[trigger] obeys_key_model::<AkdLabel>()
+{}
+pub open spec fn tuples_for(e: (AkdLabel, AkdValue), stored: Map<AkdLabel, (u64, AkdValue)>) -> Seq<LabelInput> {
+    if !stored.contains_key(e.0) {
+        seq![(e.0, VersionFreshness::Fresh, 1u64, e.1)]
+    } else if stored[e.0].1 == e.1 {
+        Seq::empty()
+    } else {
+        seq![(e.0, VersionFreshness::Stale, stored[e.0].0, e.1), (e.0, VersionFreshness::Fresh, (stored[e.0].0 + 1) as u64, e.1)]
+    }
+}
+pub open spec fn all_tuples(batch: Seq<(AkdLabel, AkdValue)>, stored: Map<AkdLabel, (u64, AkdValue)>) -> Seq<LabelInput>
+    decreases batch.len()
+{
+    if batch.len() == 0 { Seq::empty() } else { all_tuples(batch.drop_last(), stored) + tuples_for(batch.last(), stored) }
+}
+pub proof fn lemma_all_tuples_step(batch: Seq<(AkdLabel, AkdValue)>, stored: Map<AkdLabel, (u64, AkdValue)>, i: int)
+    requires 0 <= i < batch.len()
+    ensures all_tuples(batch.take(i + 1), stored) == all_tuples(batch.take(i), stored) + tuples_for(batch[i], stored)
+{
+    assert(batch.take(i + 1).drop_last() =~= batch.take(i));
+    assert(batch.take(i + 1).last() == batch[i]);
+}
+pub open spec fn versions_below_max(stored: Map<AkdLabel, (u64, AkdValue)>) -> bool {
+    forall|l: AkdLabel| #[trigger] stored.contains_key(l) ==> stored[l].0 < u64::MAX
+}
+
+// ---- C01 / C02 (very first part of publish): a batch that repeats a label is refused before anything is read or written; the stored
+// versions are asked for exactly the labels of the batch, as of the epoch of the one epoch record read
+use std::collections::HashSet;
+pub open spec fn labels_of(s: Seq<(AkdLabel, AkdValue)>) -> Seq<AkdLabel> { s.map_values(|e: (AkdLabel, AkdValue)| e.0) }
+pub proof fn lemma_labels_step(s: Seq<(AkdLabel, AkdValue)>, i: int)
+    requires 0 <= i < s.len()
+    ensures
+        labels_of(s.take(i + 1)) == labels_of(s.take(i)).push(s[i].0),
+        labels_of(s.take(i + 1)).to_set() == labels_of(s.take(i)).to_set().insert(s[i].0),
+{
+    let a = labels_of(s.take(i));
+    let b = labels_of(s.take(i + 1));
+    assert(b =~= a.push(s[i].0));
+    assert forall|x: AkdLabel| #[trigger] b.to_set().contains(x) <==> a.to_set().insert(s[i].0).contains(x) by {
+        if b.contains(x) { let j = choose|j: int| 0 <= j < b.len() && b[j] == x; if j < a.len() { assert(a[j] == x); } }
+        if a.contains(x) { let j = choose|j: int| 0 <= j < a.len() && a[j] == x; assert(b[j] == x); }
+        if x == s[i].0 { assert(b[a.len() as int] == x); }
+    }
+    assert(b.to_set() =~= a.to_set().insert(s[i].0));
+}
+pub proof fn lemma_distinct_iff(s: Seq<AkdLabel>)
+    ensures s.no_duplicates() <==> s.to_set().len() == s.len()
+{
+    if s.no_duplicates() { s.unique_seq_to_set(); }
+    if s.to_set().len() == s.len() { s.lemma_no_dup_set_cardinality(); }
+}
+pub proof fn lemma_multiset_same_set(a: Seq<AkdLabel>, b: Seq<AkdLabel>)
+    requires a.to_multiset() == b.to_multiset()
+    ensures a.to_set() == b.to_set()
+{
+    broadcast use vstd::seq_lib::group_to_multiset_ensures;
+    assert forall|x: AkdLabel| a.to_set().contains(x) <==> b.to_set().contains(x) by {
+        assert(a.contains(x) <==> a.to_multiset().count(x) > 0);
+        assert(b.contains(x) <==> b.to_multiset().count(x) > 0);
+    }
+    assert(a.to_set() =~= b.to_set());
+}
+// <[T]>::sort: a rearrangement of the same elements (the order is not used by any contract here)
+pub assume_specification<T: Ord>[ <[T]>::sort ](v: &mut [T])
+    ensures final(v)@.to_multiset() == old(v)@.to_multiset();
+// what the storage layer's bulk query answers for a SET of labels and a retrieval flag (its per-label meaning is proved in unit manager, C15)
+pub uninterp spec fn stored_versions<S: Database>(st: &StorageManager<S>, labels: Set<AkdLabel>, flag: ValueStateRetrievalFlag) -> Map<AkdLabel, (u64, AkdValue)>;
+
+// ---- C01 / C18 (between the tuples and the update set): the map from tuple to node label holds, for every tuple in it, the VRF label of
+// that very tuple under this directory's key storage
+pub uninterp spec fn vrf_label_of<TC: Configuration, V>(vrf: &V, k: LabelInput) -> NodeLabel;
+// R-UFCS target: the batch call of the VRF trait (its body is verified in unit vrf_labels: every returned pair carries the label of ITS tuple)
+#[verifier::external_body]
+pub async fn vx_vrf_get_node_labels<TC: Configuration, V: VRFKeyStorage>(vrf: &V, labels: &[LabelInput]) -> (r: Result<Vec<(LabelInput, NodeLabel)>, VrfError>)
+    ensures r is Ok ==> forall|i: int| 0 <= i < r->Ok_0@.len() ==> (#[trigger] r->Ok_0@[i]).1 == vrf_label_of::<TC, V>(vrf, r->Ok_0@[i].0)
+{ unimplemented!() }
+// R-COLLECT target: Vec<(K, V)>::into_iter().collect::<HashMap<K, V>>()
+#[verifier::external_body]
+pub fn vx_pairs_into_map<K: core::hash::Hash + Eq, W>(v: Vec<(K, W)>) -> (r: HashMap<K, W>)
+    ensures
+        forall|k: K| #[trigger] r@.contains_key(k) ==> exists|i: int| 0 <= i < v@.len() && #[trigger] v@[i] == (k, r@[k]),
+        forall|i: int| 0 <= i < v@.len() ==> r@.contains_key((#[trigger] v@[i]).0),
+{ unimplemented!() }
+impl vstd::std_specs::convert::FromSpecImpl<VrfError> for AkdError {
+    open spec fn obeys_from_spec() -> bool { true }
+    open spec fn from_spec(e: VrfError) -> Self { AkdError::Vrf(e) }
+}
+
 impl<TC: Configuration, S: Database + 'static, V: VRFKeyStorage> Directory<TC, S, V> {
     // the ordinary read of the epoch record (through the object cache): it proves nothing about freshness
     #[verifier::external_body]
-    pub(crate) async fn retrieve_azks(&self) -> (r: Result<Azks, AkdError>) { unimplemented!() }
+    // ASSUMED: a stored epoch is below u64::MAX (`current_epoch + 1` in publish)
+    pub(crate) async fn retrieve_azks(&self) -> (r: Result<Azks, AkdError>)
+        ensures r is Ok ==> r->Ok_0.latest_epoch < u64::MAX
+    { unimplemented!() }
 }
